@@ -126,7 +126,7 @@ def run_tokens(outcome, tier, seed):
     outcome.distinct_nontrivial += st["nontrivial"]
     outcome.extra["token_sequences"] = {"sequences": st["cases"], "by_format": st["by_format"], "verdicts(slice,reader)": st["verdicts"],
                                         "max_length": st["max_len"], "known_class_hits": st["known_hits"],
-                                        "alphabets": {"json": 14, "yaml": 24, "msgpack": 27}}
+                                        "alphabets": {"json": 14, "yaml": 24, "msgpack": 30}}
     outcome.extra["exhaustive"] = True
     if st["known_hits"]:
         outcome.known_hits.append(("K-C02-json-adjacent-scalars",
@@ -209,6 +209,46 @@ def listed_known():
     return {k["id"] for k in common.load_known("C02")}
 
 
+def run_large(outcome, tier, seed):
+    """Inputs larger than every buffer on the way (BufReader 8 KiB, libyaml's 16 KiB raw buffer, the capture buffer), with
+    multi-byte characters at shifted alignments, read whole ("full": the reader returns as much as it is asked for), in
+    buffer-sized pieces and in random pieces."""
+    rng = random.Random(seed + 222)
+    body = "\u20ac\U0001f600\u00e9" * 5000
+    inputs = []
+    for shift in range(4):
+        inputs.append(("yaml", ("a" * shift + 'k: "' + body + '"\n').encode()))
+    inputs.append(("yaml", "".join("---\nk%d: [\u00e9, %s]\n" % (i, "x" * (i % 97)) for i in range(2500)).encode()))
+    inputs.append(("json", ("".join('{"n":%d,"s":"\u00e9\u20ac%s"}\n' % (i, "y" * (i % 89)) for i in range(2500))).encode()))
+    inputs.append(("json", ('["' + body + '"]').encode()))
+    inputs.append(("msgpack", b"".join(corpus.mp({"n": i, "s": "\u00e9" * (i % 50)}) for i in range(3000))))
+    inputs.append(("toml", ('s = "' + body + '"\n' + "".join("k%d = %d\n" % (i, i) for i in range(3000))).encode()))
+    reqs, plans = [], []
+    for fmt, data in inputs:
+        for frm in (fmt, None):
+            to = rng.choice([f for f in corpus.FORMATS if f != "toml" or fmt == "toml"])
+            base = len(reqs)
+            reqs.append({"id": base, "to": to, "calls": [{"input": shared.hx(data), "from": frm, "mode": "slice"}]})
+            scheds = [{"kind": "full"}, {"kind": "fixed", "n": 8192}, {"kind": "fixed", "n": 16384}, {"kind": "fixed", "n": 4099}, corpus.random_sched(rng)]
+            for sc in scheds:
+                reqs.append({"id": len(reqs), "to": to, "calls": [{"input": shared.hx(data), "from": frm, "mode": "reader", "sched": sc}]})
+            plans.append((fmt, data, frm, to, base, len(scheds)))
+    resps = common.harness_batch(reqs, timeout=1800)
+    for fmt, data, frm, to, base, ns in plans:
+        a = shared.session_result(resps[base])
+        for j in range(ns):
+            b = shared.session_result(resps[base + 1 + j])
+            same = a[0] == b[0] and a[0] != "crash" and (a[2] == b[2] if a[0] == "ok" else shared.is_prefix_comparable(a[2], b[2]))
+            if not same:
+                outcome.oracle_failures.append({"what": "slice and reader input give different results (%s vs %s) on an input of %d bytes" % (a[0], b[0], len(data)),
+                                                "from": frm or "detect", "to": to, "sched": reqs[base + 1 + j]["calls"][0]["sched"],
+                                                "input_len": len(data), "input_head_hex": shared.hx(data[:120]), "slice": a[:2], "reader": b[:2],
+                                                "input_family": "%s, %d bytes, multi-byte characters at shifted alignments" % (fmt, len(data))})
+    outcome.evaluations += len(reqs)
+    outcome.distinct_nontrivial += len(reqs)
+    outcome.extra["large_inputs"] = {"inputs": len(inputs), "translations": len(reqs), "sizes": [len(d) for _, d in inputs]}
+
+
 def run(outcome, tier, seed):
     outcome.rule = ("token sequences: every sequence up to the stated length, slice vs reader (non-trivial = translates successfully to a "
                     "non-empty output); sessions: each (input, source selection, target, schedule) comparison of slice with reader")
@@ -216,6 +256,7 @@ def run(outcome, tier, seed):
     if outcome.hooks_available:
         shared.msgpack_correspondence(outcome, tier, seed)
     jsoncorr.correspondence(outcome, tier, seed)
+    run_large(outcome, tier, seed)
     run_sessions(outcome, tier, seed)
     # every listed finding: does its witness still reproduce?
     for k in common.load_known("C02"):
